@@ -1959,6 +1959,10 @@ impl<'a> Socket<'a> {
                 self.local_seq_no = Self::random_seq_no(cx);
                 self.remote_seq_no = repr.seq_number + 1;
                 self.remote_last_seq = self.local_seq_no;
+                // Nothing has been advertised to this peer yet (a handshake aborted by an
+                // RST may have left the values of the previous peer behind).
+                self.remote_last_ack = None;
+                self.remote_last_win = 0;
                 self.remote_has_sack = repr.sack_permitted;
                 self.remote_win_scale = repr.window_scale;
                 // Remote doesn't support window scaling, don't do it.
